@@ -184,12 +184,18 @@ func (w *World) applyTxEvent(p []string) (bool, bool) {
 		w.send(pc, w.Txs[p[2]])
 		w.settle()
 		return true, true
+	case "ffail": // the application's output fetcher fails its next call (backend down)
+		w.fetchFail = 1
+		return true, true
 	case "burst": // burst:<src>: the peer relays every B tx back to back (more than the node's tx channel buffers)
 		pc := w.connOf(p[1])
-		if pc == nil || pc.conn == nil || pc.conn.IsClosed() || w.bursted || w.cfg.Burst == 0 {
+		if pc == nil || pc.conn == nil || pc.conn.IsClosed() || w.bursted[p[1]] || w.cfg.Burst == 0 {
 			return true, false
 		}
-		w.bursted = true
+		if w.bursted == nil {
+			w.bursted = map[string]bool{}
+		}
+		w.bursted[p[1]] = true
 		for k := 0; k < w.cfg.Burst; k++ {
 			n := fmt.Sprintf("B%03d", k)
 			if p[1] == "T" {
